@@ -63,9 +63,9 @@ class Explorer:
         return digest([(tag, en, r[0], r[1] if r[0] == "exc" else sorted((k, digest(v)) for k, v in r[1].items())) for tag in s.tags for en, r in sorted(self.ref[(sname, tag)].items())])
 
     # ------------------------------------------------------------------ one history
-    def canon(self, grids):
+    def canon(self, grids, md=None):
         snap = pool.snapshot()
-        return digest([[t, grid_digest(grids[t])] for t in sorted(grids)] + [snap.digest()])
+        return digest([[t, grid_digest(grids[t])] for t in sorted(grids)] + [md or snap.digest()])
 
     def replay(self, sname, hist, check_from=0, want_canon_at=None):
         """Execute ``hist`` (list of [tag, event]) on fresh grids.  Returns
@@ -76,6 +76,7 @@ class Explorer:
         snap = pool.snapshot()
         grids = {t: s.builders[t]() for t in s.tags}
         viols, outs = [], []
+        mdig = None
         for i, (tag, en) in enumerate(hist):
             kind, fn = self.events[en]
             try:
@@ -88,7 +89,8 @@ class Explorer:
                     raise RuntimeError("nondeterminism not captured: replaying %r reached a different state (%s != %s)" % (hist[: i + 1], c, want_canon_at[1]))
             if i >= check_from:
                 hv = self._judge(sname, tag, en, kind, res, hist[: i + 1])
-                md = snap.diff()
+                mdig = snap.digest()
+                md = snap.diff() if mdig != snap.base_digest else None
                 if md:
                     hv.append(("module-state", "%s:module-state-changed:%s" % (self.prop, "+".join(sorted(x.split(" ")[0].replace("uxarray.", "") for x in md))[:120]), "after %s on grid %s module-level objects differ from import time: %s" % (en, tag, md)))
                 if self.extra_invariant:
@@ -96,7 +98,7 @@ class Explorer:
                 for oracle, sig, msg in hv:
                     viols.append({"oracle": oracle, "sig": sig, "msg": "history %s: %s" % (" ; ".join("%s.%s" % (t, e) for t, e in hist[: i + 1]), msg), "focus": {"kind": "one", "setup": sname, "hist": [list(x) for x in hist[: i + 1]]}})
                 outs.append(digest((tag, en, res[0], res[1] if res[0] == "exc" else sorted((k, digest(v)) for k, v in res[1].items()))))
-        return grids, viols, self.canon(grids), outs
+        return grids, viols, self.canon(grids, mdig if hist and len(hist) > check_from else None), outs
 
     def _judge(self, sname, tag, en, kind, res, hist):
         ref = self.ref[(sname, tag)][en]
